@@ -24,6 +24,7 @@ from krrood.entity_query_language import symbolic as S
 from .eqlworld import P, P2, Q, VP, VQ, index_of
 
 SETS = [frozenset(), frozenset({1}), frozenset({2}), frozenset({1, 2})]  # partially ordered by inclusion: {1} and {2} are incomparable
+TUPLES = [(1, 2), (1, 3), (2,), (1, 2, 3)]  # lexicographic order and set inclusion disagree on these
 OPS = {"==": operator.eq, "!=": operator.ne, "<": operator.lt, "<=": operator.le, ">": operator.gt, ">=": operator.ge}
 PVARS = ("x", "y", "z")
 
@@ -47,7 +48,7 @@ def shape_vars(c, bound=()):
     out = []
 
     def term(t):
-        if t[0] in ("a", "b", "kidv", "val0", "m", "flatv", "s", "sa") and t[1] not in out and t[1] not in bound_stack:
+        if t[0] in ("a", "b", "kidv", "val0", "m", "flatv", "s", "sa", "t") and t[1] not in out and t[1] not in bound_stack:
             out.append(t[1])
 
     bound_stack = list(bound)
@@ -90,7 +91,7 @@ def all_vars(c):
         k = c[0]
         if k == "cmp":
             for t in (c[2], c[3]):
-                if t[0] not in ("lit", "slit"):
+                if t[0] not in ("lit", "slit", "tlit"):
                     add(t[1])
         elif k in ("in", "truthy"):
             if c[1][0] != "lit":
@@ -114,7 +115,7 @@ def features(c):
     f = set()
 
     def term(t):
-        if t[0] in ("b", "kidv", "val0", "m", "s"):
+        if t[0] in ("b", "kidv", "val0", "m", "s", "t"):
             f.add(t[0])
         if t[0] == "flatv":
             f.add("kids")
@@ -199,7 +200,9 @@ def show(c):
 def show_t(t):
     if t[0] == "slit":
         return "S%d" % t[1]
-    return {"sa": "A(%s)", "s": "%s.s", "a": "%s.a", "b": "%s.b", "kidv": "%s.kid.v", "val0": "%s.vals[0]", "m": "%s.m()", "flatv": "flatten(%s.kids).v"}[t[0]] % t[1] if t[0] != "lit" else "k%d" % t[1]
+    if t[0] == "tlit":
+        return "T%d" % t[1]
+    return {"t": "%s.t", "sa": "A(%s)", "s": "%s.s", "a": "%s.a", "b": "%s.b", "kidv": "%s.kid.v", "val0": "%s.vals[0]", "m": "%s.m()", "flatv": "flatten(%s.kids).v"}[t[0]] % t[1] if t[0] != "lit" else "k%d" % t[1]
 
 
 # ---------------------------------------------------------------------------------------------
@@ -238,6 +241,8 @@ class World:
                 o = cls(**kw)
                 if "s" in f:
                     o.s = SETS[ctx.choice("%ss%d" % (v, i), len(SETS))]
+                if "t" in f:
+                    o.t = TUPLES[ctx.choice("%st%d" % (v, i), len(TUPLES))]
                 if "kidv" in f and not value_eq:
                     o.kid = Q(ctx.fresh_int("%skid%d" % (v, i)))
                 if "val0" in f and not value_eq:
@@ -290,7 +295,11 @@ class World:
             return self.lits[t[1]]
         if k == "slit":
             return SETS[t[1]]
+        if k == "tlit":
+            return TUPLES[t[1]]
         v = self.var(t[1])
+        if k == "t":
+            return v.t
         if k == "s":
             return v.s
         if k == "sa":  # ONE attribute expression node shared by all its uses (a = x.a; and_(a >= k, a))
@@ -352,7 +361,11 @@ class World:
             return self.lits[t[1]]
         if k == "slit":
             return SETS[t[1]]
+        if k == "tlit":
+            return TUPLES[t[1]]
         o = env[t[1]]
+        if k == "t":
+            return o.t
         if k == "s":
             return o.s
         if k == "sa":
@@ -467,6 +480,10 @@ def atoms(vars_, level):
         out += [("cmp", "<", ("s", x), ("slit", 1)), ("cmp", ">=", ("s", x), ("slit", 2))]
         if y:
             out += [("cmp", "<=", ("s", x), ("s", y))]
+        # order comparisons between sequence values are lexicographic
+        out += [("cmp", ">=", ("t", x), ("tlit", 1))]
+        if y:
+            out += [("cmp", "<", ("t", x), ("t", y))]
     if y:
         out += [("cmp", "==", ("a", x), ("a", y)), ("cmp", "<", ("a", x), ("a", y))]
         if level >= 2:
